@@ -25,6 +25,15 @@ CHECKS = {
             "1e-13 SciPy reference. The ODE layer is sampling.",
             "Trusts SciPy DOP853 at 1e-13 as reference and its RK45/DOP853 as calibration of the tolerance multiple; order criterion p-0.5 on the finest halvings.",
             "DESIGN.md §4 C02"),
+    "C04": ("exploration",
+            "property-based testing (Hypothesis) over mass ratios with mpmath/SymPy reference model; catalogue enumerated exhaustively",
+            "Mass ratios log-uniform down to 1e-9, every catalogue pair through System.from_bodies (exhaustive) and edge values derived from constants in the code, "
+            "x L1..L5: the point is returned, is an equilibrium of an independent field, lies on the right side of the primaries, agrees with a 30-digit root, "
+            "gamma matches the position, c_n match the Taylor coefficients of the exact potential along the library's own local axis, reported modes equal the "
+            "eigenvalues of the independently derived Jacobian (vertical mode identified by eigenvector support), C is symplectic and C^T Hess(H2) C equals the "
+            "stated normal form. Sampling over mu, not a proof.",
+            "Trusts SymPy/mpmath/NumPy eig; above Routh's ratio a RuntimeError from triangular linear_modes is accepted; tolerances derived from the library's documented Brent xtol.",
+            "DESIGN.md §4 C04"),
     "C13": ("fault_enumeration",
             "exhaustive fault-sequence enumeration (accept/reject/raise scripts) on the real predictor-corrector backend against a reference loop model + Hypothesis long scripts + end-to-end families re-checked by independent SciPy propagation",
             "Every corrector outcome string over {accept, reject, raise} up to length 7 (quick) / 9 (thorough) x a 1536-configuration grid (step sign/magnitude, target "
